@@ -25,33 +25,14 @@ def budget(tier):
     return {'examples': 6000 if tier == 'quick' else 120000, 'wall_s': 300 if tier == 'quick' else 3000, 'shrink_s': 60}
 
 
-@st.composite
-def _with_stop(draw):
-    """One scenario in five: some actor stops a bus (possibly while a handler is suspended in it). The statement's converse still
-    binds there: once every handler result of the awaited tree is terminal (a handler cancelled by stop() has an error result)
-    the waiter must be released. Trees that stop() left unprocessed are not judged."""
-    sc = draw(scenario(P))
-    if draw(st.integers(0, 4)) != 0:
-        return sc
-    sc = dict(sc)
-    actors = [list(a) for a in sc['actors']]
-    ai = draw(st.integers(0, len(actors) - 1))
-    pos = draw(st.integers(min(1, len(actors[ai])), len(actors[ai])))
-    pre = draw(st.sampled_from([None, 0.01, 0.05, 0.1, 0.11, 0.25]))
-    # prefer a bus some handler is registered on / this actor dispatched to, so that the stop often lands on a handler in flight
-    used = [op[1] for op in actors[ai][:pos] if op[0] in ('disp', 'burst')] + [h['bus'] for h in sc['handlers']]
-    bus = draw(st.sampled_from(used)) if used and draw(st.integers(0, 3)) else draw(st.integers(0, len(sc['buses']) - 1))
-    ins = ([['sleep', pre]] if pre is not None else []) + [['stop', bus, draw(st.sampled_from([None, None, 0, 0.05, 0.25])), False]]
-    actors[ai] = actors[ai][:pos] + ins + actors[ai][pos:]
-    sc['actors'] = actors
-    sc['stops'] = True
-    return sc
-
-
 def strategy(tier):
     from bvt.props._scen import mixed
 
-    return st.integers(0, 2).flatmap(lambda k: _with_stop() if k == 0 else mixed(scenario(P), tier, ID))
+    from bvt.props._scen import with_stop
+
+    # a third of the cases come from the stop() sub-family (one in five of those actually stops a bus): there only the statement's
+    # converse binds - once every handler result of the awaited tree is terminal the waiter must be released
+    return st.integers(0, 2).flatmap(lambda k: with_stop(scenario(P), 5) if k == 0 else mixed(scenario(P), tier, ID))
 
 
 def _awaited(F):
